@@ -25,6 +25,17 @@ connection error if the link breaks): a send still pending after 4000 virtual se
 send: earlier packets exactly once + SOME prefix of the abandoned packet (documented: impossible to know how much was sent)
 + exactly the later packets (C04/<family>/bytes-equal/after-abandoned-send).
 
+History "failed serialization" (all harnesses except sync-tls, chunk-list packets; a fifth of the runs, a third in aio-tls, never
+together with the abandoned-send history): the serializer of one packet raises a private exception after having produced k of
+its n chunks (k in 0..n; ChunkListSerializer meets the _CRASH sentinel); the call fails with that exception (wrapped in
+RuntimeError by the endpoints' StreamDataProducer, as it is through the bare transport); the peer then reads everything and
+the link drains; later packets are sent.  Timing-aware oracle (_CrashLedger; a byte oracle on the final stream cannot tell
+'sent at failure time' from 'sent later'): at the drained point after the failed call the peer holds the earlier packets + at
+most a prefix of the k chunks produced (C04/<family>/bytes-prefix/failed-serialization); every later send_packet that
+returns adds exactly its own bytes to the peer's stream, measured at the next drained point, and nothing follows at the end
+but a prefix of a send that failed with TimeoutError/ConnectionError (C04/<family>/bytes-equal/after-failed-serialization;
+D27: the async TLS transport kept the chunks of the failed packet in its backlog and sent them in front of the next packet).
+
 Oracle (exactly the property statement): on normal return the peer's byte stream == concatenation of the chunks
 of all packets sent so far; on TimeoutError / ConnectionError it is a prefix of that; nothing else may escape;
 virtual elapsed <= timeout; termination: no run of socket calls that neither transfer a byte nor are told to block
@@ -37,6 +48,8 @@ empty chunks and zero-chunk packets are generated everywhere; `world.avoid_known
   C04/aio-adapter/spin/empty-chunk (+ aclose-hangs/...) D3  empty view left in asyncio's write queue
   C04/aio-adapter/send-raises/AssertionError/zero-chunks D11 packet with no chunk -> asyncio writelines() asserts
   C04/aio-adapter/bytes-equal/returned-before-flush     D12 writelines() path returned before the data was flushed
+  C04/aio-tls/bytes-equal/after-failed-serialization    D27 async TLS send_all_from_iterable() kept the chunks produced before the
+                                                        serializer raised and sent them in front of the next packet
   C04/aio-adapter/send-raises/AttributeError/after-connection-lost  D25 send_packet (writelines path) issued after the connection was
                                                         lost in the background raised AttributeError (found by the history above)
 `window_trigger()` is the exact input class of D2/D3; it only selects the key of a spin violation.
@@ -84,6 +97,9 @@ RULE = (
     "reads at once / slowly / never (never only with a finite timeout), spurious writability; async transports (adapter, TLS), a quarter "
     "of the runs: history = a send_packet larger than the link is suspended (peer not reading) and abandoned by backend.timeout(1/64|0.25|2 s), "
     "the peer then reads everything, later sends (after the drain / at once, also after a background ECONNRESET/EPIPE) must terminate; "
+    "history 'failed serialization' (chunk-list packets, all transports but sync-tls; 1/5 of the runs, 1/3 in aio-tls): the serializer of "
+    "one packet raises after k of its n chunks (k in 0..n), the link drains, later packets are sent: the peer's stream at each drained point "
+    "must grow by exactly the bytes of the send that returned (nothing of the failed packet later on); "
     "oracle: byte-exact equality on return, prefix on TimeoutError/ConnectionError (after an abandoned async send: earlier packets + a prefix "
     "of the abandoned one + exactly the later ones), elapsed <= timeout, every async send ends within 4000 virtual seconds (blocks-forever), "
     "livelock/spin detectors, aclose() completes"
@@ -121,13 +137,22 @@ _PATTERN = _make_pattern(13 * 70000 + 64)  # position-identifying filler: duplic
 
 
 # --------------------------------------------------------------------------------------------------- serializers
+class _SerializerCrash(Exception):
+    """private exception raised by ChunkListSerializer when it meets the _CRASH sentinel"""
+
+
+_CRASH = object()  # element of a chunk-list packet: the serializer raises _SerializerCrash when it gets there
+
+
 class ChunkListSerializer(AbstractIncrementalPacketSerializer[list, Any]):
-    """packet = list of chunks; incremental_serialize yields them as they are"""
+    """packet = list of chunks; incremental_serialize yields them as they are (and fails at the _CRASH sentinel)"""
 
     __slots__ = ()
 
     def incremental_serialize(self, packet):
         for chunk in packet:
+            if chunk is _CRASH:
+                raise _SerializerCrash("serializer failed after having produced some chunks")
             yield chunk
 
     def incremental_deserialize(self):  # pragma: no cover - receive side unused
@@ -237,6 +262,28 @@ class _Workload:
 
     def total(self) -> int:
         return sum(sum(ss) for ss in self.sizes)
+
+    crash: tuple[int, int] | None = None  # (packet index, number of chunks produced before the serializer raises)
+
+    def draw_crash(self, world: World, den: int = 5) -> bool:
+        """history: the serializer of ONE packet raises after having produced k of its n chunks (k in 0..n); at least one
+        later packet follows.  From then on `expected`/`sizes` of that packet are the k chunks actually produced."""
+        if self.kind != "chunks" or not world.chance("history.crash", 1, den):
+            return False
+        c = world.choose("crash.at", len(self.packets))
+        n = len(self.sizes[c])
+        k = (n - world.choose("crash.k", n + 1)) if n else 0  # 0 -> after all n chunks, ..., n -> before the first one
+        if c == len(self.packets) - 1:
+            self.repeat_first()  # copies the intact packet 0 (c == 0 included: done before the sentinel is inserted)
+        chunks = self.expected[c]
+        self.packets[c] = [*chunks[:k], _CRASH, *chunks[k:]]
+        self.expected[c] = list(chunks[:k])
+        self.sizes[c] = list(self.sizes[c][:k])
+        self.crash = (c, k)
+        world.probe("serializer_crash_packet")
+        if any(self.sizes[c]):
+            world.probe("serializer_crash_after_bytes_produced")
+        return True
 
     def repeat_first(self) -> None:
         """one more packet (same content as the first one): the send issued after an abandoned one"""
@@ -484,6 +531,79 @@ def _check_bytes_history(family: str, wl: _Workload, abandoned: int, later_ok: i
         )
 
 
+def _is_crash(exc: BaseException) -> bool:
+    """the private serializer exception, as it is or wrapped (StreamDataProducer: RuntimeError(...) from exc)"""
+    seen = 0
+    e: BaseException | None = exc
+    while e is not None and seen < 8:
+        if isinstance(e, _SerializerCrash):
+            return True
+        e = e.__cause__ or e.__context__
+        seen += 1
+    return False
+
+
+class _CrashLedger:
+    """Timing-aware byte oracle for the history "a send_packet whose serializer raised after k chunks, then later sends".
+
+    A byte oracle on the final stream cannot tell 'sent while the failed call was running' from 'sent later, in front of
+    another packet': so the peer's stream is recorded each time the link has drained.  After the failed call: the earlier
+    packets, then at most a prefix of the chunks the failed packet produced.  Every later send_packet that returns must
+    add exactly its own chunks -- nothing of the failed packet may show up after its call has returned."""
+
+    def __init__(self, family: str, wl: _Workload, describe: Callable[[], str]):
+        self.family, self.wl, self.describe = family, wl, describe
+        self.base: bytes | None = None  # the peer's stream at the last drained point (None: the crash has not happened yet)
+
+    @property
+    def active(self) -> bool:
+        return self.base is not None
+
+    def after_crash(self, got: bytes) -> None:
+        assert self.wl.crash is not None
+        c, k = self.wl.crash
+        before = b"".join(b"".join(ch) for ch in self.wl.expected[:c])
+        produced = b"".join(self.wl.expected[c])
+        if not (got.startswith(before) and produced.startswith(got[len(before) :])):
+            raise Violation(
+                "bytes-prefix",
+                f"send_packet #{c} failed (serializer raised after {k} chunks); once the link had drained the peer holds {len(got)} bytes which are not the {len(before)} bytes of the "
+                f"earlier packets + a prefix of the {len(produced)} bytes produced (first difference at offset {_first_diff(got, before + produced)}); {self.describe()}",
+                key=f"C04/{self.family}/bytes-prefix/failed-serialization",
+            )
+        self.base = got
+
+    def after_ok(self, i: int, got: bytes) -> None:
+        assert self.base is not None and self.wl.crash is not None
+        own = b"".join(self.wl.expected[i])
+        if got != self.base + own:
+            c, k = self.wl.crash
+            added = got[len(self.base) :] if got.startswith(self.base) else None
+            stale = b"".join(self.wl.expected[c])
+            hint = ""
+            if added is not None and stale and added == stale + own:
+                hint = f" -- it added the {len(stale)} bytes the FAILED packet #{c} had produced, in front of its own bytes"
+            raise Violation(
+                "bytes-equal",
+                f"send_packet #{i} returned after send_packet #{c} had failed (serializer raised after {k} chunks): it must add exactly its own {len(own)} bytes to the peer's stream, "
+                f"the peer got {'%d bytes' % len(added) if added is not None else 'a stream that does not even extend the previous one'}{hint} (stream {len(self.base)} -> {len(got)} bytes); {self.describe()}",
+                key=f"C04/{self.family}/bytes-equal/after-failed-serialization",
+            )
+        self.base = got
+
+    def final(self, got: bytes, failed_index: int | None) -> None:
+        """end of the run: nothing but a prefix of a send that failed with TimeoutError / a connection error may follow"""
+        assert self.base is not None and self.wl.crash is not None
+        tail_max = b"".join(self.wl.expected[failed_index]) if failed_index is not None and failed_index < len(self.wl.expected) else b""
+        if not (got.startswith(self.base) and tail_max.startswith(got[len(self.base) :])):
+            raise Violation(
+                "bytes-equal" if failed_index is None else "bytes-prefix",
+                f"after send_packet #{self.wl.crash[0]} failed in its serializer and the later sends ended, the peer's stream grew from {len(self.base)} to {len(got)} bytes "
+                f"(allowed: {'nothing' if failed_index is None else 'a prefix of the %d bytes of send #%d which failed' % (len(tail_max), failed_index)}); {self.describe()}",
+                key=f"C04/{self.family}/bytes-equal/after-failed-serialization",
+            )
+
+
 def _first_diff(a: bytes, b: bytes) -> int:
     n = min(len(a), len(b))
     for i in range(0, n, 4096):
@@ -527,12 +647,14 @@ def _h_sync(world: World, family: str) -> None:
     else:
         iov_choice = iov = 0
     wl = _Workload(world)
+    wl.draw_crash(world)
     via = world.pick("via", ("endpoint", "client"))
     retry_interval = world.pick("retry_interval", (math.inf, 1.0, 1.0 / 16))
     link = _Link(world, wl.total(), allow_never=True)
     # a peer that never reads is only combined with finite (and short: bounded number of retry rounds) timeouts
     timeouts = [world.pick("timeout", _TIMEOUTS_FINITE if link.peer_mode == "never" else _TIMEOUTS) for _ in wl.packets]
-    extra = {"iov": iov_choice, "via": via, "timeouts": timeouts, "retry_interval": retry_interval, "capacity": link.capacity, "peer": link.peer_mode, "fail_from": link.fail_from}
+    extra = {"iov": iov_choice, "via": via, "timeouts": timeouts, "retry_interval": retry_interval, "capacity": link.capacity, "peer": link.peer_mode, "fail_from": link.fail_from, "serializer_crash(packet,after_k_chunks)": wl.crash}
+    ledger = _CrashLedger(family, wl, lambda: _describe(wl, extra))
     world.notes.update(family=family, kind=wl.kind, sizes=wl.sizes, **{k: str(v) for k, v in extra.items()})
     saved_iov = _en_constants.SC_IOV_MAX
     _en_constants.SC_IOV_MAX = iov  # type: ignore[misc]
@@ -552,6 +674,7 @@ def _h_sync(world: World, family: str) -> None:
                 sender = TCPNetworkClient(link.lib, wl.protocol, retry_interval=retry_interval)
             done = 0
             failed = False
+            failed_index: int | None = None
             for current, (packet, timeout) in enumerate(zip(wl.packets, timeouts)):
                 cur[0] = current
                 t0 = world.now
@@ -567,11 +690,14 @@ def _h_sync(world: World, family: str) -> None:
                 except _PASS_THROUGH:
                     raise
                 except BaseException as exc:
-                    raise Violation(
-                        "send-raises",
-                        f"send_packet raised {type(exc).__name__}: {exc} (only TimeoutError / ConnectionError are allowed); {_describe(wl, extra)}",
-                        key=f"C04/{family}/send-raises/{type(exc).__name__}",
-                    ) from None
+                    if wl.crash is not None and current == wl.crash[0] and _is_crash(exc):
+                        outcome = "crash"  # the serializer's own failure, as it is or wrapped by the endpoint
+                    else:
+                        raise Violation(
+                            "send-raises",
+                            f"send_packet raised {type(exc).__name__}: {exc} (only TimeoutError / ConnectionError are allowed); {_describe(wl, extra)}",
+                            key=f"C04/{family}/send-raises/{type(exc).__name__}",
+                        ) from None
                 finally:
                     link.tap.end()
                 elapsed = world.now - t0
@@ -589,15 +715,30 @@ def _h_sync(world: World, family: str) -> None:
                         f"send_packet #{current} issued {zero} zero-length socket sends for {len(wl.sizes[current])} chunks; {_describe(wl, extra)}",
                         key=f"C04/{family}/op-budget",
                     )
-                if outcome == "ok":
-                    done += 1
+                if outcome == "crash":
+                    # history: the link drains (the peer reads everything from now on); what the peer holds NOW is all the
+                    # failed packet may ever contribute
+                    world.fault("handler_raises")
+                    link.settle()
+                    ledger.after_crash(bytes(link.peer.received))
+                elif outcome == "ok":
+                    if ledger.active:
+                        link.settle()
+                        ledger.after_ok(current, bytes(link.peer.received))
+                        world.probe("send_completed_after_failed_serialization")
+                    else:
+                        done += 1
                     world.progress(1)
                 else:
                     world.probe("outcome." + outcome)
                     failed = True
+                    failed_index = current
                     break
             link.settle()
-            _check_bytes(family, wl, done, failed, link, extra)
+            if ledger.active:
+                ledger.final(bytes(link.peer.received), failed_index)
+            else:
+                _check_bytes(family, wl, done, failed, link, extra)
     finally:
         _en_constants.SC_IOV_MAX = saved_iov  # type: ignore[misc]
         # always close explicitly: a destructor running at an arbitrary later point would write into the trace
@@ -650,6 +791,8 @@ def _h_aio(world: World) -> None:
     # larger than the link) and abandoned by the caller's time budget (backend.timeout -> TimeoutError); the peer then reads
     # everything; the sends issued afterwards on the healthy connection must terminate like any other
     history = world.chance("history.abandon", 1, 4)
+    if not history:
+        wl.draw_crash(world)  # the other history: the serializer of one packet raises after k chunks, later sends follow
     link = _Link(world, wl.total(), allow_never=False, force_small=history)
     abandon_at: int | None = None
     budget = 0.0
@@ -662,10 +805,11 @@ def _h_aio(world: World) -> None:
             late_when = world.pick("history.later", ("after-drain", "at-once"))
             if abandon_at == len(wl.packets) - 1:
                 wl.repeat_first()
-    extra = {"via": via, "capacity": link.capacity, "peer": link.peer_mode, "fail_from": link.fail_from, "abandon": (abandon_at, budget, late_when) if abandon_at is not None else None}
+    extra = {"via": via, "capacity": link.capacity, "peer": link.peer_mode, "fail_from": link.fail_from, "abandon": (abandon_at, budget, late_when) if abandon_at is not None else None, "serializer_crash(packet,after_k_chunks)": wl.crash}
     world.notes.update(family=family, kind=wl.kind, sizes=wl.sizes, **{k: str(v) for k, v in extra.items()})
     backend = SimAsyncIOBackend(link.net)
-    state: dict[str, Any] = {"current": 0, "done": 0, "failed": False, "early_return": False, "abandoned": None, "later_ok": 0}
+    state: dict[str, Any] = {"current": 0, "done": 0, "failed": False, "early_return": False, "abandoned": None, "later_ok": 0, "failed_index": None}
+    ledger = _CrashLedger(family, wl, lambda: _describe(wl, extra))
     link.check_installed()
     link.tap.family = family
     link.tap.spin_key = lambda: _spin_key(family, wl, state["current"], iov)
@@ -680,6 +824,17 @@ def _h_aio(world: World) -> None:
     async def flushed(expected_written: int) -> bool:
         """wait (bounded) until everything the completed sends produced has been accepted by the socket"""
         return await wait_until(world, lambda: pipe.total_written >= expected_written or world.fatal is not None or link.lib.sim_closed, max_time=4000.0, step=0.25)
+
+    async def peer_has_everything(expected_written: int) -> bytes:
+        """the peer reads everything from now on; returns its stream once all that was handed over has reached it"""
+        if link.slow is not None:
+            link.slow.stop = True
+        link.peer.resume_reading()
+        link.peer.pull()
+        await flushed(expected_written)
+        await wait_until(world, lambda: pipe.total_read >= pipe.total_written or world.fatal is not None or link.lib.sim_closed, max_time=4000.0, step=1.0 / 64)
+        check_fatal()
+        return bytes(link.peer.received)
 
     async def main() -> None:
         loop = asyncio.get_running_loop()
@@ -722,14 +877,22 @@ def _h_aio(world: World) -> None:
                 except asyncio.CancelledError:
                     raise
                 except BaseException as exc:
-                    zero_chunks = not wl.sizes[i]
-                    raise Violation(
-                        "send-raises",
-                        f"send_packet raised {type(exc).__name__}: {exc} (only a connection error is allowed); {_describe(wl, extra)}",
-                        key=f"C04/{family}/send-raises/{type(exc).__name__}" + ("/zero-chunks" if zero_chunks else "") + ("/after-connection-lost" if lost_before else ""),
-                    ) from None
+                    if wl.crash is not None and i == wl.crash[0] and _is_crash(exc):
+                        outcome = "crash"  # the serializer's own failure, as it is or wrapped by the endpoint
+                    else:
+                        zero_chunks = not wl.sizes[i]
+                        raise Violation(
+                            "send-raises",
+                            f"send_packet raised {type(exc).__name__}: {exc} (only a connection error is allowed); {_describe(wl, extra)}",
+                            key=f"C04/{family}/send-raises/{type(exc).__name__}" + ("/zero-chunks" if zero_chunks else "") + ("/after-connection-lost" if lost_before else ""),
+                        ) from None
                 world.log("send_packet", family, i, outcome)
                 check_fatal()
+                if outcome == "crash":
+                    # history: the link drains; what the peer holds NOW is all the failed packet may ever contribute
+                    world.fault("handler_raises")
+                    ledger.after_crash(await peer_has_everything(expected_written))
+                    continue
                 if abandon_now:
                     elapsed = world.now - t0
                     if elapsed > budget + 1e-6:
@@ -753,6 +916,7 @@ def _h_aio(world: World) -> None:
                 if outcome != "ok":
                     world.probe("outcome." + outcome)
                     state["failed"] = True
+                    state["failed_index"] = i
                     break
                 if state["abandoned"] is None:
                     state["done"] += 1
@@ -761,6 +925,9 @@ def _h_aio(world: World) -> None:
                     world.probe("send_completed_after_abandoned_one")
                 world.progress(1)
                 expected_written += sum(wl.sizes[i])
+                if ledger.active:
+                    ledger.after_ok(i, await peer_has_everything(expected_written))
+                    world.probe("send_completed_after_failed_serialization")
                 if pipe.total_written < expected_written:
                     # send_packet returned although the socket has not accepted all the bytes yet (C20 territory);
                     # a connection error striking now loses bytes of a send that reported success.
@@ -801,7 +968,9 @@ def _h_aio(world: World) -> None:
             run_async(world, main)
         link.settle()
         early = state["early_return"] and not state["failed"]
-        if state["abandoned"] is not None:
+        if ledger.active:
+            ledger.final(bytes(link.peer.received), state["failed_index"])
+        elif state["abandoned"] is not None:
             _check_bytes_history(family, wl, state["abandoned"], state["later_ok"], state["failed"], bytes(link.peer.received), extra)
         else:
             _check_bytes(family, wl, state["done"], state["failed"], link, extra, suffix="/returned-before-flush" if early else "")
@@ -842,6 +1011,10 @@ def _h_aio_tls(world: World) -> None:
     # all, the packet is larger than the link), abandoned by the caller's time budget, the peer then reads everything, and
     # the later sends on the healthy connection must terminate
     history = world.chance("history.abandon", 1, 4)
+    if not history:
+        # the other history (a third of the remaining runs here: this is the transport with a persistent write backlog): the
+        # serializer of one packet raises after k chunks, later sends follow
+        wl.draw_crash(world, den=3)
     baseline = (not history) and world.choose("swarm.faults", 3) == 0
     net = SimNet(world)
     net.livelock_limit = 300
@@ -911,13 +1084,14 @@ def _h_aio_tls(world: World) -> None:
             late_when = world.pick("history.later", ("after-drain", "at-once"))
             if abandon_at == len(wl.packets) - 1:
                 wl.repeat_first()
-    extra = {"via": via, "tls": version, "lib_server": lib_server, "capacity": capacity, "peer": peer_mode, "peer_cfg": peer_cfg, "fail_from": fail_from, "abandon": (abandon_at, budget, late_when) if abandon_at is not None else None}
+    extra = {"via": via, "tls": version, "lib_server": lib_server, "capacity": capacity, "peer": peer_mode, "peer_cfg": peer_cfg, "fail_from": fail_from, "abandon": (abandon_at, budget, late_when) if abandon_at is not None else None, "serializer_crash(packet,after_k_chunks)": wl.crash}
     world.notes.update(family=family, kind=wl.kind, sizes=wl.sizes, **{k: str(v) for k, v in extra.items()})
     tap.family = family
     tap.spin_key = lambda: f"C04/{family}/spin"
     tap.describe = lambda: _describe(wl, extra)
     backend = SimAsyncIOBackend(net)
-    state: dict[str, Any] = {"done": 0, "failed": False, "abandoned": None, "later_ok": 0}
+    state: dict[str, Any] = {"done": 0, "failed": False, "abandoned": None, "later_ok": 0, "failed_index": None}
+    ledger = _CrashLedger(family, wl, lambda: _describe(wl, extra))
 
     def check_fatal() -> None:
         if world.fatal is not None:
@@ -982,13 +1156,24 @@ def _h_aio_tls(world: World) -> None:
                 except asyncio.CancelledError:
                     raise
                 except BaseException as exc:
-                    raise Violation(
-                        "send-raises",
-                        f"TLS send raised {type(exc).__name__}: {exc} (only a connection error is allowed); {_describe(wl, extra)}",
-                        key=f"C04/{family}/send-raises/{type(exc).__name__}",
-                    ) from None
+                    if wl.crash is not None and i == wl.crash[0] and _is_crash(exc):
+                        outcome = "crash"  # the serializer's own failure (wrapped by the endpoint, as it is via the transport)
+                    else:
+                        raise Violation(
+                            "send-raises",
+                            f"TLS send raised {type(exc).__name__}: {exc} (only a connection error is allowed); {_describe(wl, extra)}",
+                            key=f"C04/{family}/send-raises/{type(exc).__name__}",
+                        ) from None
                 world.log("send_packet", family, i, outcome)
                 check_fatal()
+                if outcome == "crash":
+                    # history: the peer reads everything from now on and the link drains; the plaintext the peer has
+                    # decrypted NOW is all the failed packet may ever contribute
+                    world.fault("handler_raises")
+                    release_peer()
+                    await drained()
+                    ledger.after_crash(bytes(peer.plain_in))
+                    continue
                 zero = sum(1 for t in world.trace[pos:] if t[0] == "send" and t[1] == lib.label and t[2] == 0)
                 if zero > len(wl.sizes[i]) + 1:
                     raise Violation("op-budget", f"send #{i} issued {zero} zero-length socket sends; {_describe(wl, extra)}", key=f"C04/{family}/op-budget")
@@ -1007,6 +1192,7 @@ def _h_aio_tls(world: World) -> None:
                 if outcome != "ok":
                     world.probe("outcome." + outcome)
                     state["failed"] = True
+                    state["failed_index"] = i
                     break
                 if state["abandoned"] is None:
                     state["done"] += 1
@@ -1014,6 +1200,10 @@ def _h_aio_tls(world: World) -> None:
                     state["later_ok"] += 1
                     world.probe("send_completed_after_abandoned_one")
                 world.progress(1)
+                if ledger.active:
+                    await drained()
+                    ledger.after_ok(i, bytes(peer.plain_in))
+                    world.probe("send_completed_after_failed_serialization")
             # after the last fault: the peer reads again; nothing may keep the loop busy
             release_peer()
             if state["abandoned"] is not None:
@@ -1022,7 +1212,10 @@ def _h_aio_tls(world: World) -> None:
             check_fatal()
             if not idle:
                 raise Violation("spin", f"the event loop does not go idle after the TLS send returned; {_describe(wl, extra)}", key=f"C04/{family}/spin/loop-busy")
-            if state["abandoned"] is not None:
+            if ledger.active:
+                await drained()
+                ledger.final(bytes(peer.plain_in), state["failed_index"])
+            elif state["abandoned"] is not None:
                 _check_bytes_history(family, wl, state["abandoned"], state["later_ok"], state["failed"], bytes(peer.plain_in), extra)
             else:
                 _check_plain(family, wl, state["done"], state["failed"], peer.plain_in, extra, peer.engine.error)
